@@ -2,6 +2,7 @@ import Capella.Lemmas.Svg
 import Capella.Lemmas.SvgDefsUnique
 import Capella.Lemmas.SvgRows
 import Capella.Lemmas.SvgTotal
+import Capella.Lemmas.SvgAllIds
 import Capella.Lemmas.Wrap
 import Capella.Lemmas.WrapChars
 import Capella.Lemmas.SvgText
@@ -457,6 +458,37 @@ theorem C18_all_ids_unique_partial :
       ["OperationalCapabilitySymbol".toList, "MissionSymbol".toList, "CapabilitySymbol".toList] :=
   ⟨clash_ids_eq.trans (by decide +kernel), digests_consistent, by decide +kernel⟩
 
+
+/-- **… and when no two deployed fragments share an id, no id at all is defined twice.** For every diagram whose style
+overrides carry upper-case hex colour values (what `RGB.tohex()` writes): if rendering succeeds and the decidable
+`noClash` holds of the resulting document — no two *deployed* registered symbol fragments share an id, which for the
+generated table means: at most one of the three `brown_oval` icons is shown — then all ids defined in `<defs>`, those
+inside symbol fragments included, are pairwise different. (The driver evaluates `noClash` on every case and the harness
+compares it with the duplicate ids of the real document.) Needs from the table: fragment ids pairwise different, none
+shaped like a generated marker / gradient id, only a fragment's own id ends in `Symbol`, the `Error` fragment defines
+nothing but its id (`symbols_row_ids`, `error_ids_ok`), upper-case hex colours (`styles_upper`). -/
+theorem all_ids_unique_when_no_clash (dg : Diagram) (hov : ∀ e ∈ dg.elems, ∀ p ∈ e.obj.style, p.2.upperOK = true)
+    (doc : DocS) (h : renderS tables dg = .ok doc) (hc : noClash symbolRows (doc.defs.map (·.id)) = true) :
+    (doc.defs.flatMap (·.ids)).Nodup := by
+  have hn := (defs_deployed_once_generated dg (fun e he p hp => upperOK_hexOK _ (hov e he p hp)) doc h).1
+  refine allIds_nodup (fun r hr => (List.all_eq_true.mp symbols_wf) r hr) symbols_row_ids hn ?_ hc
+  unfold renderS at h
+  simp only [bind, Except.bind] at h
+  cases hd : drawAllS tables dg.cls (encodeDiagram dg).2 {} with
+  | error e => simp [hd] at h
+  | ok p =>
+    obtain ⟨drawn, st⟩ := p
+    simp only [hd, pure, Except.pure, Except.ok.injEq] at h
+    subst h
+    have hov' : ∀ o ∈ (encodeDiagram dg).2, AllVals (fun v => v.upperOK = true) o.style := by
+      intro o ho
+      simp only [encodeDiagram, List.mem_map, List.mem_filter] at ho
+      obtain ⟨e, ⟨he, _⟩, rfl⟩ := ho
+      exact hov e he
+    have hup : StylesUpperOK tables.styles := fun e he p hp =>
+      (List.all_eq_true.mp ((List.all_eq_true.mp styles_upper) e he)) p hp
+    exact drawAllS_shaped error_ids_ok hup _ _ _ _ hov' hd (fun _ he => nomatch he)
+
 /-! ### label text -/
 
 /-- **Wrapping neither drops, adds, splits nor reorders a word** — for every text-extent function,
@@ -757,6 +789,18 @@ example : ∃ doc, renderS tables historyExample = .ok doc ∧ (doc.defs.map (·
   · have hv : (renderS tables historyExample).map (fun d => d.defs.length) = .ok 5 := by decide +kernel
     rw [h] at hv; cases hv
   · exact ⟨doc, hd, hn, hone⟩
+
+-- no clash in that history: all ids, inner ones included, are pairwise different
+example : ∀ doc, renderS tables historyExample = .ok doc → (doc.defs.flatMap (·.ids)).Nodup := by
+  intro doc hd
+  refine all_ids_unique_when_no_clash historyExample (by decide +kernel) doc hd ?_
+  have hv : (renderS tables historyExample).map (fun d => noClash symbolRows (d.defs.map (·.id))) = .ok true := by
+    decide +kernel
+  rw [hd] at hv
+  simpa [Except.map] using hv
+-- … and `noClash` is what fails for the Mission + Capability diagram
+example : (renderS tables missionAndCapability).map (fun d => noClash symbolRows (d.defs.map (·.id))) = .ok false := by
+  decide +kernel
 
 -- a label of five words in a box two lines high (extent: 1 per character wide, 1 high): two lines, the second cut and marked
 example : renderLabel (· = ' ') (fun s => (s.length : Rat)) (fun _ => 1) ["ab cd efg hi jk".toList] 6 2 0 0
